@@ -686,6 +686,9 @@ def run(run, model):
     run.try_rule(r01_10, model)
     run.try_rule(r01_11, model)
     run.try_rule(r01_12, model)
+    # emitted pieces keep their order: no new reversal, swap or sort (G-SEQ, shared with C09 R09.17)
+    from rules import gseq
+    run.try_rule(gseq.r_seq, model, "R01.13")
     # which binder a name denotes is part of what the program means (shared with C05 R05.2)
     from rules import c05 as _c05
     run.try_rule(_c05.r05_2, model)
